@@ -22,7 +22,7 @@ RULE = ("a real RF24Mesh master on a simulated radio; address requests injected 
         "nodes). save_dhcp()/load_dhcp() round trips for every table size 0..255 in both formats. "
         "Non-trivial: >=1 lease granted or refused; distinct = distinct event histories.")
 REQUIRED = {"table_injective": 20000, "reply_checks": 5000, "release_reassign": 40,
-            "persistence_roundtrip": 150}
+            "persistence_roundtrip": 150, "persistence_after_changes": 500}
 BUDGET = {"quick": 150, "thorough": 600}
 
 VIAS = [0o4444, 0o2, 0o32]
@@ -366,5 +366,41 @@ def run_persist(ctx, case):
                           % (case["n"], sorted(a.dhcp_dict.items())[:3], sorted(b.dhcp_dict.items())[:3]), case)
             return
         ctx.nontrivial(("persist", case["n"], case["as_bin"]))
+        # ---- the same master goes on: leases are released / added / moved and the table is
+        # saved again (over the old file and into a new one); a fresh master must load exactly
+        # the current table each time
+        d = tempfile.mkdtemp(prefix="c16_", dir="/dev/shm")
+        try:
+            for cyc in range(3):
+                cur = dict(a.dhcp_dict)
+                for ad in rng.sample(sorted(cur.values()), min(len(cur), rng.choice([0, 1, 2, len(cur) // 2, len(cur)]))):
+                    a.release_address(ad)
+                free_ids = [i for i in range(1, 256) if i not in a.dhcp_dict]
+                free_ad = [x for x in pool if x not in a.dhcp_dict.values()]
+                for i in rng.sample(free_ids, min(len(free_ids), rng.choice([0, 0, 1, 3]))):
+                    a.set_address(i, free_ad.pop(rng.randrange(len(free_ad))))
+                for name in ("same", "new%d" % cyc):
+                    fn = os.path.join(d, name + (".bin" if case["as_bin"] else ".json"))
+                    c = rig.driver(rig.radio("m%d%s" % (cyc, name[0])), cls=m["rf24_mesh"].RF24Mesh, node_id=0)
+                    try:
+                        a.save_dhcp(fn, as_bin=case["as_bin"])
+                        c.load_dhcp(fn, as_bin=case["as_bin"])
+                    except Exception as e:  # noqa: BLE001
+                        ctx.violation("persistence-raises", "second save/load (%d entries, as_bin=%s) raised %r"
+                                      % (len(a.dhcp_dict), case["as_bin"], e), case)
+                        return
+                    ctx.clause("persistence_after_changes")
+                    if dict(c.dhcp_dict) != dict(a.dhcp_dict):
+                        extra = {k: v for k, v in c.dhcp_dict.items() if a.dhcp_dict.get(k) != v}
+                        ctx.violation("persistence-mismatch-after-changes/%s" % ("bin" if case["as_bin"] else "json"),
+                                      "save #%d (%s file) of a table that had %d entries and now has %d: a fresh "
+                                      "master loads %d entries; not in the saved table: %r"
+                                      % (cyc + 2, name, len(cur), len(a.dhcp_dict), len(c.dhcp_dict),
+                                         sorted(extra.items())[:4]), case)
+                        return
+        finally:
+            for f in os.listdir(d):
+                os.unlink(os.path.join(d, f))
+            os.rmdir(d)
     finally:
         rig.close()
